@@ -37,6 +37,18 @@ theorem good_mono {α : Type} {x : Res (α × Bytes)} {bs bs' : Bytes} {k k' : N
     (hl : bs.length + k' ≤ bs'.length + k) : Good x bs' k' :=
   ⟨h.1, fun a r hx => by have := h.2 a r hx; omega⟩
 
+theorem readHdr_some {n : Nat} {bs buf r : Bytes} (h : readHdr n bs = some (buf, r)) :
+    buf.length = n ∧ r = bs.drop n := by
+  unfold readHdr at h
+  split at h
+  · rename_i h0
+    simp at h
+    obtain ⟨rfl, rfl⟩ := h
+    subst h0
+    simp
+  · obtain ⟨h1, h2, _⟩ := rawRead_some h
+    exact ⟨h1, h2⟩
+
 theorem decodeSampledHeader_good (bs : Bytes) : Good (decodeSampledHeader bs) bs 16 := by
   unfold decodeSampledHeader
   split
@@ -47,20 +59,27 @@ theorem decodeSampledHeader_good (bs : Bytes) : Good (decodeSampledHeader bs) bs
     · split
       · exact good_err _ _ _
       · rename_i buf r' hrr
-        obtain ⟨hb, hr', _⟩ := rawRead_some hrr
+        obtain ⟨hb, hr'⟩ := readHdr_some hrr
         rw [slice?_le (Nat.zero_le _) (by omega)]
         simp only
         have hd := dissect_safe ((buf.drop 0).take (hl - 0)) proto
+        have hrem : r'.length + 16 ≤ bs.length := by
+          subst hr'
+          simp at hlen ⊢
+          omega
         cases hx : dissect ((buf.drop 0).take (hl - 0)) proto with
         | ok p =>
           refine ⟨safe_ok _, ?_⟩
           intro a r2 h
           simp at h
           obtain ⟨_, rfl⟩ := h
-          subst hr'
-          simp at hlen ⊢
-          omega
-        | err e => exact good_err _ _ _
+          exact hrem
+        | err e =>
+          refine ⟨safe_ok _, ?_⟩
+          intro a r2 h
+          simp at h
+          obtain ⟨_, rfl⟩ := h
+          exact hrem
         | panic => exact absurd hx hd.1
         | fuel => exact absurd hx hd.2
   · exact good_err _ _ _
@@ -112,13 +131,17 @@ theorem flowRecord_good (bs : Bytes) : Good (flowRecord bs) bs 8 := by
       · exact good_mono (good_mapFst _ (decodeSampledHeader_good r2)) (by omega)
       · split
         · exact good_mono (good_mapFst _ (decodeExtSwitch_good r2)) (by omega)
-        · split
-          · exact good_mono (good_mapFst _ (decodeExtRouter_good len r2)) (by omega)
-          · refine ⟨safe_ok _, ?_⟩
+        · have skip : Good (Res.ok ((none : Option FlowRec), r2.drop len)) bs 8 := by
+            refine ⟨safe_ok _, ?_⟩
             intro a r h
             simp at h
             obtain ⟨_, rfl⟩ := h
             simp; omega
+          split
+          · split
+            · exact skip
+            · exact good_mono (good_mapFst _ (decodeExtRouter_good len r2)) (by omega)
+          · exact skip
 
 theorem flowRecord_progress : Progress flowRecord := fun bs a r h => (flowRecord_good bs).2 a r h
 theorem flowRecord_safe (bs : Bytes) : Safe (flowRecord bs) := (flowRecord_good bs).1
@@ -164,26 +187,22 @@ theorem loopN_good {α : Type} {step : Bytes → Res (α × Bytes)} (hg : ∀ bs
 theorem decodeFlowSample_good (bs : Bytes) : Good (decodeFlowSample bs) bs 32 := by
   unfold decodeFlowSample
   split
-  · rename_i seq sid r0 h0
-    obtain ⟨_, hl0, _⟩ := readFields_some h0
-    split
-    · rename_i rate pool drops inp out n r1 h1
-      obtain ⟨_, hl1, _⟩ := readFields_some h1
-      obtain ⟨hs, hk⟩ := loopN_good flowRecord_good (r1.length + 1) n r1 (by omega)
-      cases hx : loopN flowRecord (r1.length + 1) n r1 with
-      | ok p =>
-        obtain ⟨items, r2⟩ := p
-        refine ⟨safe_ok _, ?_⟩
-        intro a r h
-        simp at h
-        obtain ⟨_, rfl⟩ := h
-        have := (hk items r2 hx).2
-        simp at hl0 hl1
-        omega
-      | err e => exact good_err _ _ _
-      | panic => exact absurd hx hs.1
-      | fuel => exact absurd hx hs.2
-    · exact good_err _ _ _
+  · rename_i seq sid idx rate pool drops inp out n r1 h1
+    obtain ⟨_, hl1, _⟩ := readFields_some h1
+    obtain ⟨hs, hk⟩ := loopN_good flowRecord_good (r1.length + 1) n r1 (by omega)
+    cases hx : loopN flowRecord (r1.length + 1) n r1 with
+    | ok p =>
+      obtain ⟨items, r2⟩ := p
+      refine ⟨safe_ok _, ?_⟩
+      intro a r h
+      simp at h
+      obtain ⟨_, rfl⟩ := h
+      have := (hk items r2 hx).2
+      simp at hl1
+      omega
+    | err e => exact good_err _ _ _
+    | panic => exact absurd hx hs.1
+    | fuel => exact absurd hx hs.2
   · exact good_err _ _ _
 
 theorem decodeCounterSample_good (bs : Bytes) : Good (decodeCounterSample bs) bs 12 := by
